@@ -67,6 +67,15 @@ fn mixed_method(id_did: &str, controller_did: &str, frag: &str) -> Option<Verifi
     "publicKeyJwk": {"kty":"OKP","crv":"Ed25519","alg":"EdDSA","x": x}
   }))
   .ok()
+  .map(|mut m| {
+    // DID-core allows further properties on a verification method; set through the public accessor
+    if ctx::chance(1, 3) {
+      let name = ["purpose", "zNote", "aLabel"][ctx::choose(3)];
+      m.properties_mut().insert(name.to_owned(), Value::from("signing"));
+      ctx::stat("probe.method_with_additional_property");
+    }
+    m
+  })
 }
 
 const RELATIONSHIPS: [MethodRelationship; 5] = [
@@ -362,7 +371,28 @@ pub fn run(_params: &Params) {
     // I14.1 — same DID as packed / different DID
     if pre_did == p.did {
       ctx::stat("probe.unpack_for_same_did");
-      check_unpacked("same-did", &unpack_for(&version.bytes, &p.did), &pre_json, &want_meta);
+      let unpacked = unpack_for(&version.bytes, &p.did);
+      check_unpacked("same-did", &unpacked, &pre_json, &want_meta);
+      // "an equal document": equal as values too, not only as JSON text (which key material a method carries, and
+      // which of its members are mere properties, is part of the value)
+      if let Ok(u) = &unpacked {
+        if u.core_document() != pre_doc.core_document() {
+          let detail = pre_doc
+            .core_document()
+            .methods(None)
+            .iter()
+            .zip(u.core_document().methods(None).iter())
+            .find(|(a, b)| a != b)
+            .map(|(a, b)| format!("method {}: data {:?} with properties {:?} came back as data {:?} with properties {:?}", a.id(), a.data(), a.properties().keys().collect::<Vec<_>>(), b.data(), b.properties().keys().collect::<Vec<_>>()))
+            .unwrap_or_else(|| "documents differ outside their methods".to_owned());
+          ctx::violation(
+            "C14",
+            "C14.round_trip",
+            "same-did/equal-json-but-unequal-document",
+            format!("the unpacked document serialises like the packed one but is not equal to it: {detail}"),
+          );
+        }
+      }
     } else {
       ctx::stat("probe.unpack_for_other_did");
       check_unpacked("rebased-at-first-publish", &unpack_for(&version.bytes, &p.did), &version.truth, &want_meta);
